@@ -14,6 +14,15 @@ from harness.common import (canon, dec_res, enc_val, ensure_impl_on_path, known_
                             run_impl, same)
 
 GEN_MODULES = ['excelutil', 'arrayfit']
+EXTRA_TARGETS = ['Refuted/C13_scalar_error.vo']
+EXPLANATION = (
+    "fit_to_range is translated from excelutil.py on every run (Gen/arrayfit.v) and proved equal to the "
+    "list-level specification fit_spec for every non-empty rectangular result and every target >= 1x1; "
+    "shape and element theorems follow for all sizes.  array_fixup (numpy) and cse_array_wrapper (closure) "
+    "are hand-modelled in Model/Arrays.v; their pointwise theorems hold for all shapes and, for the wrapper, "
+    "for an arbitrary wrapped function; the tie to the code is the differential run (all operand shape pairs "
+    "and all result x target shapes up to 4x4, sampled values).  The CSE pipeline of excelwrapper / "
+    "excelcompiler is exercised end to end on generated workbooks (oracle only).")
 
 OPS = ['Add', 'Sub', 'Mult', 'Div', 'Pow', 'BitAnd', 'USub', 'Eq', 'NotEq', 'Lt', 'LtE', 'Gt', 'GtE']
 OP_TEXT = {'Add': '+', 'Sub': '-', 'Mult': '*', 'Div': '/', 'Pow': '^', 'BitAnd': '&', 'Eq': '=',
@@ -181,7 +190,7 @@ def run(ctx):
     fit_cases = []
     for rs in [None] + SHAPES:
         for (h, w) in SHAPES:
-            for _ in range(ctx.n(12, 120)):
+            for _ in range(ctx.n(24, 120)):
                 fit_cases.append((mk(ctx, rs), h, w))
     # bigger than 4x4 as well (the theorems are for all sizes)
     for _ in range(ctx.n(300, 3000)):
@@ -219,7 +228,7 @@ def run(ctx):
     op_cases = []
     for sa, sb in itertools.product([None] + SHAPES, repeat=2):
         for i, o in enumerate(OPS):
-            for _ in range(ctx.n(2, 12)):
+            for _ in range(ctx.n(3, 12)):
                 if o == 'Pow':
                     a, b = mk(ctx, sa, 'powb'), mk(ctx, sb, 'powe')
                 elif o == 'USub':
@@ -281,7 +290,7 @@ def run(ctx):
     for cse in probes:
         for sh in SHAPES:
             for mask in itertools.product([False, True], repeat=3):
-                for _ in range(ctx.n(1, 6)):
+                for _ in range(ctx.n(2, 8)):
                     args = tuple(mk(ctx, sh if m else None) for m in mask)
                     probe_cases.append((cse, args))
         # differently shaped array arguments: the first one decides, larger ones are read partially,
@@ -348,7 +357,7 @@ def run(ctx):
             for mask in itertools.product([False, True], repeat=nargs):
                 if not any(mask):
                     continue
-                for _ in range(ctx.n(2, 12)):
+                for _ in range(ctx.n(6, 30)):
                     args = tuple(fun_arg(name, p, sh if m else None) for p, m in enumerate(mask))
                     case = dict(call=name, args=list(args))
                     im = run_impl(f, *args)
@@ -411,7 +420,7 @@ def end_to_end(ctx, fixup, FUNCS):
     model_calls, checks = [], []
     for plan in plans:
         kind, sa, sb = plan
-        for rep in range(ctx.n(1, 4)):
+        for rep in range(ctx.n(2, 6)):
             wb = Workbook()
             ws = wb.active
 
